@@ -104,8 +104,15 @@ def harness(prog, dag, txt, K):
         symx.LITERAL_MODE["mode"] = "real"
         state = {"model": None}
 
+        del symx.REAL_DENOMS[:]
+
         def prover(c):
             v, m = ex.prove(c)
+            if v == "refuted" and symx.REAL_DENOMS and not isinstance(c, bool):
+                # z3's x/0 is an arbitrary value: only a refutation with non-zero denominators counts
+                ex.stats.obligations -= 1
+                ex.stats.refuted -= 1
+                v, m = ex.prove(z3.Implies(symx.nonzero_denominators(), c))
             if v == "refuted":
                 state["model"] = m
             return v
@@ -408,6 +415,8 @@ def main(tier, seed):
         "outside: LAPACK-backed built-ins (linear_solve, svd, matmul, transpose) and isnan (no NaN in the real-number model)",
         "'the module compiles' is decided by gfortran -fsyntax-only (concrete side check), not by the solver",
         "reads of never-written elements of a fresh <builtin>array are outside the claim",
+        "division by zero is outside the claim: a refuted equality is re-proved under 'every denominator met on the path is non-zero' "
+        "(z3's real x/0 is an arbitrary value and says nothing about IEEE inf/nan); IEEE division is exercised by the concrete conformance runs only",
     ]
     return run.finish(
         rule="%d programs of the Fortran-supported subset (real scalars, arrays, user-type vectors of length 2, counted loops, guards, nested conditional "
